@@ -79,7 +79,7 @@ PROBES = ['cfg:faults', 'cfg:fault-free', 'kind:tcpserver', 'kind:unixserver', '
           'fault:fatal_send_error', 'close-deferred', 'close-immediate', 'close-performed', 'write-after-close-request', 'write-after-closed',
           'payload-empty', 'payload-large', 'fatal-signalled', 'post-payload-written', 'flushed-in-full', 'repeated-close',
           'repeated-close-while-deferred', 'close-all-while-deferred', 'eof-while-close-deferred', 'eof-before-close', 'cfg:greedy-big',
-          'payload-over-1MiB', 'payload-over-1MiB-accepted-in-one-send']
+          'payload-over-1MiB', 'payload-over-1MiB-accepted-in-one-send', 'cfg:file-text-payloads']
 TIERS = {
     'quick': dict(runs=50000, wall=26, chunk=25, cfg=dict(max_ops=16, large=(60_000, 300_000), max_total=450_000, large_w=1, big_den=40)),
     'thorough': dict(runs=200000, wall=600, chunk=40, cfg=dict(max_ops=40, large=(300_000, 2_500_000), max_total=6_000_000, large_w=2, big_den=10)),
@@ -117,6 +117,24 @@ def pattern(n):
     if len(_PAT[0]) < n:
         _PAT[0] = hashlib.shake_256(b'C11 stream pattern').digest(max(n, 1 << 20))
     return _PAT[0]
+
+
+_TXT = [None]
+TXT_CHARS = 120_000
+
+
+def text_pattern():
+    """Fixed non-periodic text of 1-, 2-, 3- and 4-byte characters with its UTF-8 encoding and the byte offset of every character
+    (File accepts str payloads and encodes them itself; the OS counts bytes, the payload counts characters)."""
+    if _TXT[0] is None:
+        alpha = 'abcxyz09 \n' + '\u00e9\u00fc\u00df\u00a2' + '\u20ac\u6f22\u5b57\u2603' + '\U0001f600\U00010348'
+        h = hashlib.shake_256(b'C11 text pattern').digest(TXT_CHARS)
+        txt = ''.join(alpha[b % len(alpha)] for b in h)
+        offs = [0]
+        for c in txt:
+            offs.append(offs[-1] + len(c.encode('utf-8')))
+        _TXT[0] = (txt, txt.encode('utf-8'), offs)
+    return _TXT[0]
 
 
 class RecFile(io.FileIO):
@@ -225,13 +243,23 @@ def _run(ctx):
         ctx.log('greedy-big', st_big['at'], st_big['size'])
         ctx.trace('greedy OS: one send()/write() may accept a whole payload (the remote end drains meanwhile); write number %d is %d bytes' % (
             st_big['at'] + 1, st_big['size']))
-    PAT = pattern(cfg['max_total'] + 4096 + (MIB + 300_000 if big else 0))
+    # File takes str payloads too and encodes them itself: one File run in three writes text with multi-byte characters (never with the
+    # 1 MiB payload: the text pattern is 120000 characters long)
+    text = grp == 'file' and not big and ch.chance(1, 3, 'text-payloads')
+    if text:
+        ctx.stat('cfg:file-text-payloads')
+        ctx.log('text')
+        TXT, PAT, TOFF = text_pattern()
+    else:
+        TXT = TOFF = None
+        PAT = pattern(cfg['max_total'] + 4096 + (MIB + 300_000 if big else 0))
     T0 = W.now
 
     pays = []            # (offset in PAT, size, 'pre'|'post') in write order
     st = dict(total=0, pre_total=0, close_req=False, post=[], states={(-1, 0)}, acc=0, call=None, last='none', ncalls=0,
               partials=0, refusals=0, fatal=None, signalled=False, closed_at=None, after_close=0, viol=False, dead=False,
-              sock=None, connected=False, deferred=False, faults_seen=0, late=0, close_dem=False, ncloses=0, eof=False, disp=0, call_disp=-1, big=st_big, nwrites=0)
+              sock=None, connected=False, deferred=False, faults_seen=0, late=0, close_dem=False, ncloses=0, eof=False, disp=0, call_disp=-1, big=st_big, nwrites=0,
+              text=(TXT, TOFF) if text else None, tchar=0)
 
     def fail(key, detail):
         if not st['viol']:
@@ -667,6 +695,17 @@ def _drive(ctx, st, pays, PAT, m, kind, grp, fire_write, fire_close, half_close,
             size = ch.randint(cfg['large'][0], cfg['large'][1], 'size')
         if c >= 0 and st['total'] + size > cfg['max_total']:
             size = min(size, 7)
+        payload = None
+        if st['text']:
+            # `size` counts characters here; the stream offsets the oracle works with are byte offsets of the encoded text
+            txt, toff = st['text']
+            c0 = st['tchar']
+            if c0 + size > len(txt) - 8:
+                size = min(size, 7, len(txt) - c0)
+            payload = txt[c0:c0 + size]
+            st['tchar'] = c0 + size
+            assert st['total'] == toff[c0]
+            size = toff[c0 + size] - toff[c0]
         off = st['total']
         phase = 'post' if st['close_req'] else 'pre'
         pays.append((off, size, phase))
@@ -684,7 +723,7 @@ def _drive(ctx, st, pays, PAT, m, kind, grp, fire_write, fire_close, half_close,
             st['nonempty'] = st.get('nonempty', 0) + 1
         ctx.log('write', len(pays) - 1, off, size, phase)
         ctx.trace('write #%d: %d bytes (stream offset %d)%s' % (len(pays) - 1, size, off, ' [after the close request]' if phase == 'post' else ''))
-        fire_write(PAT[off:off + size])
+        fire_write(PAT[off:off + size] if payload is None else payload)
 
     def unflushed():
         return max(st['pre_total'] - st['acc'], 0)
